@@ -195,6 +195,9 @@ def rule_cases():
     add('unhashable-key', 'SELECT count(*) FROM #m GROUP BY st')
     add('unhashable-key', 'SELECT di, count(*) FROM #m GROUP BY 1')
     add('unhashable-key', 'SELECT st AS k, count(*) FROM #m GROUP BY k')
+    add('unhashable-key', 'SELECT di, count(*) FROM #m')                     # implicit grouping
+    add('unhashable-key', 'SELECT s, st, sum(i) FROM #m')
+    add('unhashable-key', 'SELECT count(*), di AS d FROM #m ORDER BY 1')
     add('in-subquery-width', 'SELECT i FROM #m WHERE i IN (SELECT uid, w FROM #u)')
     add('in-subquery-width', 'SELECT i NOT IN (SELECT * FROM #u) FROM #m')
     add('in-subquery-width', 'SELECT i FROM #m WHERE i IN (SELECT uid, count(*) FROM #u)')
